@@ -855,3 +855,29 @@ mod tests {
         assert!(!server.find_or_add_connect_token_entry(connect_token));
     }
 }
+
+#[cfg(feature = "verif_hooks")]
+impl NetcodeServer {
+    /// Counter preset: sequence used for challenge / denied packets.
+    pub fn verif_set_global_sequence(&mut self, sequence: u64) {
+        self.global_sequence = sequence;
+    }
+
+    pub fn verif_global_sequence(&self) -> u64 {
+        self.global_sequence
+    }
+
+    /// Counter preset: send sequence of a connected client.
+    pub fn verif_set_client_sequence(&mut self, client_id: u64, sequence: u64) {
+        if let Some(client) = find_client_mut_by_id(&mut self.clients, client_id) {
+            client.sequence = sequence;
+        }
+    }
+
+    /// Addresses with a half-open session (coverage accounting only), sorted.
+    pub fn verif_pending_addrs(&self) -> Vec<SocketAddr> {
+        let mut addrs: Vec<SocketAddr> = self.pending_clients.keys().copied().collect();
+        addrs.sort();
+        addrs
+    }
+}
